@@ -66,6 +66,20 @@ CLAIMS["C15"] = dict(
     technique="TLC-enumerated fault space (TLA+ Corrupt action), byte-level injection, sanitizer + watchdog observation, TLC validation of the post-fault contract",
     design="DESIGN.md §4 C15")
 
+CLAIMS["C19"] = dict(
+    category="model_checking",
+    text=("TexPath.tla transcribes the regex pipeline stage by stage over a 12-token alphabet (separators, whitespace, dot, colon, "
+          "letters, textures/TEXTURES, data/Data) and states the canonical form independently of it. TLC enumerates every token "
+          "string up to length 4 (thorough: 5) x needsPrefix x terrain and checks canonical form and idempotence of the transcription "
+          "(design-level: this found five defects of the pinned clean-up, now fixed); every case is replayed through every slot kind "
+          "(texture set, the five effect-shader paths, NiSourceTexture) by TrimTexturePaths and by Save+Load, and results are "
+          "trace-validated by TLC (canonical clauses, idempotence, only-removes-a-prefix). Seeded random byte strings up to 4 KiB "
+          "(non-UTF-8, drive/UNC prefixes) are cleaned under ASan and validated the same way."),
+    note=("Trusted: TLC, the tokeniser of the harness (character-level and token-level semantics coincide for this alphabet), POSIX "
+          "is_relative semantics. Never-throws/never-loops is observed by the forked harness (ASan + watchdog)."),
+    technique="TLA+ transcription + independent canonical-form predicate, TLC exhaustive enumeration replayed on the implementation, TLC trace validation",
+    design="DESIGN.md §3.5, §4 C19")
+
 NOT_YET = {}
 
 
